@@ -384,7 +384,7 @@ class Ref(object):
             self.do_mark(kind, path, key, transit=False)
         elif k == "deact":
             X = self.framers[a["name"]]
-            if not X.done:
+            if X.active is not None and X.main is fm:
                 self.deactivate_aux(X)
         else:
             raise ValueError("unexpected act kind %r in context %s" % (k, ra.ctx))
@@ -421,9 +421,14 @@ class Ref(object):
     def check_enter(self, F, enters, exits):
         if not enters:
             return False
+        claimed = []   # an original aux can have only one main frame at a time
         for fm in enters:
             if not self.frame_check_enter(fm, exits):
                 return False
+            for X in fm.auxes:
+                if X in claimed:
+                    return False
+                claimed.append(X)
         return True
 
     def frame_check_enter(self, fm, exits):
@@ -449,6 +454,7 @@ class Ref(object):
         return True
 
     def enter_all(self, F):
+        self.ev(["enterall", F.name])
         F.done = False
         self.activate(F, F.first)
         self.enter_frames(F, list(F.actives))
@@ -485,6 +491,7 @@ class Ref(object):
         return list(F.actives) + self.suspended(F)
 
     def exit_all(self, F, abort=False):
+        self.ev(["exitall", F.name, bool(abort)])
         self.exit_frames(F, self.entered_outline(F))
         F.actives = []
         F.active = None
@@ -591,6 +598,12 @@ class Ref(object):
         pos = len(self.events)
         self.ev(["act", F.name, fm.name, "precur", ra.line, "auxif", None])
         needs = a.get("needs") or []
+        if X.done and X.active is not None and X.main is fm:
+            # marked done from outside its own run while still entered: clean up
+            self.deactivate_aux(X)
+            F.actives = list(F.active.outline)
+            self.events[pos][6] = False
+            return False
         if X.done:
             for j, n in enumerate(needs):
                 r = self.eval_need(n, F, fm)
